@@ -191,7 +191,7 @@ def rel_chains(seed, n, steps=None, maxvars=3, k=1):
     rng = random.Random(seed)
     out = []
     for _ in range(n):
-        thr = rng.random() < 0.3
+        thr = k == 1 and rng.random() < 0.3      # with ghost dimensions the threshold bound exceeds any practical length
         nv = rng.randint(1, 2 if thr else maxvars)
         ths = sorted(set(rng.choice([-100, -10, 10, 50, 1000]) for _ in range(rng.randint(1, 2)))) if thr else []
         nsteps = steps or (3 * chain_bound(nv, len(ths), k) + 10)
